@@ -1081,6 +1081,37 @@ def b18(ctx, rid):
         raise core.AnchorLost('from_raw in src/filter/range.rs: %d' % n)
 
 
+def b19(ctx, rid):
+    """filters are added to concurrently through `&self`: a bit is set with an atomic read-modify-write (fetch_or / fetch_and) or
+    with a compare_exchange that is retried in a loop.  A load + single compare_exchange whose failure is taken for success loses
+    the bit whenever another thread changes a neighbouring bit of the same word - `add` succeeded, `contains` answers absent."""
+    import props.c13 as c13
+    prog = ctx.prog
+    n = 0
+    for f in prog.fns.values():
+        if f.file != 'src/filter/atomic_bitvec.rs':
+            continue
+        for c in f.calls:
+            if c.bb not in f.reachable() or not c.path.startswith('std::sync::atomic::Atomic'):
+                continue
+            if c.name in ('fetch_or', 'fetch_and', 'fetch_xor', 'fetch_update'):
+                n += 1
+                ctx.ok(rid, 'atomic-bit-update|%s|%s' % (prog.fns[f.id].root, c.name), c.where(), 'atomic read-modify-write', nontrivial=False)
+            elif c.name in ('compare_exchange', 'compare_exchange_weak', 'compare_and_swap', 'store', 'swap'):
+                n += 1
+                key = 'atomic-bit-update|%s|%s' % (prog.fns[f.id].root, c.name)
+                in_loop = any(c.bb in body for (h, body) in c13.natural_loops(f))
+                shared = f.argc >= 1 and f.locals[1]['s'].startswith('&') and not f.locals[1]['s'].startswith('&mut')
+                if c.name.startswith('compare_exchange') and in_loop:
+                    ctx.ok(rid, key, c.where(), 'compare_exchange inside a retry loop')
+                elif not shared:
+                    ctx.ok(rid, key, c.where(), 'exclusive access (&mut self / construction)', nontrivial=False)
+                else:
+                    ctx.bad(rid, key, c.where(), 'a word of the shared bit vector is updated with `%s` outside a retry loop: a concurrent update of another bit of the same word is lost or makes this one be dropped (the key was added, the filter answers `definitely absent`)' % c.name)
+    if n < 2:
+        raise core.AnchorLost('atomic updates in src/filter/atomic_bitvec.rs: %d' % n)
+
+
 RULES = [
     Rule('C10.B1', 'every `definitely absent` answer lies in its owner and is controlled by that owner\'s justifying test; defaults are NeedAdditionalCheck', b1, 11),
     Rule('C10.B2', 'filter.add(key) dominates every insertion into the in-memory header map', b2, 2),
@@ -1099,5 +1130,6 @@ RULES = [
     Rule('C10.B16', 'the bloom offset reported by the filter (de)serializer equals the position of the bloom bytes (affine layout algebra)', b16, 2),
     Rule('C10.B17', 'the filter a storage reports for itself is None or built from the closed-blob root filter, never the active filter alone', b17, 1),
     Rule('C10.B18', 'a range filter restored from bytes is the deserialised one or an error, never a fresh (all-absent) filter', b18, 1),
+    Rule('C10.B19', 'bits of the shared bit vector are updated by atomic read-modify-write operations (or a retried compare_exchange)', b19, 2),
     Rule('C10.B9', 'the range merge can extend both bounds in one call', b9, 1),
 ]
